@@ -1,18 +1,32 @@
 ---------------------------- MODULE Trace_Collection ----------------------------
 (* Use (C) for C16: every record is the observation of ONE real MazeDatasetCollection built by the
-   harness from real MazeDataset members with the length vector r.lens (the input).  Items are
-   logged BY OBJECT IDENTITY: for a returned / listed maze object the harness logs `hits` = the list
-   of all [member k, position p] with  members[k].mazes[p] is obj  (0-based); a correct item has
-   exactly one hit.  The expected <<member, position>> is recomputed HERE from r.lens with
-   Collection!Concat; nothing is compared in Python.
+   harness from real MazeDataset members.  Items are logged BY OBJECT IDENTITY: for a returned /
+   listed maze object the harness logs `hits` = the list of all [member k, position p] with
+   members[k].mazes[p] is obj  (0-based, members = the collection's CURRENT members); a correct item
+   has exactly one hit.  The expected <<member, position>> is recomputed HERE from the length vector
+   with Collection!Concat; nothing is compared in Python.
 
-   fields:  lens (input), member_lens (len of the members as built), build ("ok" | "raise:<T>"),
-            len_res/len, dl_res/dataset_lengths, nm_res/n_mazes (cfg.n_mazes), cum_res/cum,
-            mazes_res/mazes (hits per entry of collection.mazes),
-            get  = one [res, hits] per valid index i = 0..sum(lens)-1 (collection[i]),
-            oob  = [i, res, hits] for i = sum(lens) and i = -1 (recorded; Layer M only)
+   record kinds (field t):
+   "static"  lens (input), member_lens (len of the members as built), build ("ok" | "raise:<T>"),
+             len_res/len, dl_res/dataset_lengths, nm_res/n_mazes (cfg.n_mazes), cum_res/cum,
+             mazes_res/mazes (hits per entry of collection.mazes),
+             get = one [res, hits] per valid index i = 0..sum(lens)-1 (collection[i]),
+             oob = [i, res, hits] for i = sum(lens) and i = -1 (recorded; Layer M only)
+   "hist"    a HISTORY on one collection: steps = sequence of
+               [op ("init" | "mutate" | "update"), k, n, kind, lens (the members' lengths after the op, as
+                edited by the harness), member_lens, len_res/len, dl_res/dataset_lengths, cum_res/cum, get, oob]
+             every step is observed like a static record w.r.t. the CURRENT lengths (`.mazes` is NOT read
+             during the history); then  end = [mazes_res, mazes, nm_res, n_mazes]: `.mazes` read for the
+             first time after the last step, and cfg.n_mazes after a final update_self_config().
+             Each step must be explained by Collection!Mutate(k, n) / Update (Layer M: the log is a
+             behaviour of the spec) and satisfy the statement for the current vector (Layer P).
+   "fault"   mode "fault": member k raises the harness's InjectedFault on its first read during the first
+             `collection.mazes`; mode "threads": a worker thread is held inside its first
+             `collection.mazes` while reading member k and the main thread reads `collection.mazes` too.
+             reads = sequence of [who, res, mazes (hits per entry)], len_res/len.
+             (Collection!BuildFault / Read: a list handed to a reader is never a truncated one.)
    Layer P = the statement's clauses.  "M:" = the harness / the code's internals (cum array,
-   out-of-range behaviour) differ from the model; never a violation. *)
+   out-of-range behaviour, history bookkeeping) differ from the model; never a violation. *)
 EXTENDS Collection
 Log == ndJsonDeserialize(IOEnv.VERIF_LOG)
 
@@ -26,31 +40,68 @@ GetClauses(r, exp) ==
   If(\E k \in 1..n : r.get[k].res # "ok", "getitem_raises_on_valid_index")
   \cup If(\E k \in 1..n : r.get[k].res = "ok" /\ r.get[k].hits # exp[k], "getitem_not_the_concat_item")
 
-OobClauses(r) ==
+OobClauses(r, ls) ==
   If(\E k \in 1..Len(r.oob) :
-        LET o == r.oob[k]  m == CodeGetReal(r.lens, o.i) IN
+        LET o == r.oob[k]  m == CodeGetReal(ls, o.i) IN
         o.res # m.res \/ (m.res = "ok" /\ o.hits # <<m.item>>), "M:out_of_range_outcome")
 
-Clauses(r) ==
-  IF r.build # "ok" THEN {"construction_raises"} ELSE
-  LET ls == r.lens  tot == Total(ls)  exp == Expected(ls)
-      counts_ok == r.len_res = "ok" /\ r.dl_res = "ok" /\ r.nm_res = "ok" /\ r.mazes_res = "ok" IN
+\* what every observation of a collection whose members currently have lengths ls must satisfy
+ObsClauses(r, ls) ==
+  LET exp == Expected(ls) IN
   If(r.len_res # "ok" \/ r.len # CollLen(ls), "len_not_sum_of_members")
   \cup If(r.dl_res # "ok" \/ r.dataset_lengths # DatasetLengths(ls), "member_lengths_wrong")
-  \cup If(r.nm_res # "ok" \/ r.n_mazes # NMazes(ls), "n_mazes_wrong")
-  \cup If(r.mazes_res # "ok" \/ r.mazes # exp, "mazes_not_the_concatenation")
   \cup GetClauses(r, exp)
-  \cup If(counts_ok /\ ~(r.len = Len(r.mazes) /\ r.len = SumSeq(r.dataset_lengths) /\ r.len = r.n_mazes), "views_disagree")
   \cup If(r.member_lens # ls, "M:harness_members")
-  \cup If(Len(r.get) # tot, "M:harness_index_range")
+  \cup If(Len(r.get) # Total(ls), "M:harness_index_range")
   \cup If(r.cum_res # "ok" \/ r.cum # Cum(ls), "M:cum_lengths")
-  \cup OobClauses(r)
+  \cup OobClauses(r, ls)
+
+StaticClauses(r) ==
+  IF r.build # "ok" THEN {"construction_raises"} ELSE
+  LET ls == r.lens
+      counts_ok == r.len_res = "ok" /\ r.dl_res = "ok" /\ r.nm_res = "ok" /\ r.mazes_res = "ok" IN
+  ObsClauses(r, ls)
+  \cup If(r.nm_res # "ok" \/ r.n_mazes # NMazes(ls), "n_mazes_wrong")
+  \cup If(r.mazes_res # "ok" \/ r.mazes # Expected(ls), "mazes_not_the_concatenation")
+  \cup If(counts_ok /\ ~(r.len = Len(r.mazes) /\ r.len = SumSeq(r.dataset_lengths) /\ r.len = r.n_mazes), "views_disagree")
+
+\* step j of a history is a step of the spec: Mutate(k, n) changes exactly member k to n # old, others keep lens
+StepIsSpecStep(prev, s) ==
+  CASE s.op = "mutate" -> /\ s.k + 1 \in 1..Len(prev) /\ s.n # prev[s.k + 1] /\ s.n >= 0
+                          /\ s.lens = [prev EXCEPT ![s.k + 1] = s.n]
+    [] s.op = "update" -> s.lens = prev
+    [] OTHER -> FALSE
+HistClauses(r) ==
+  IF r.build # "ok" THEN {"construction_raises"} ELSE
+  LET st == r.steps  last == st[Len(st)].lens IN
+  UNION {(IF st[j].res # "ok" THEN {"history_step_raises"} ELSE IF st[j].obs THEN ObsClauses(st[j], st[j].lens) ELSE {}) : j \in 1..Len(st)}
+  \cup If(st[1].op # "init" \/ \E j \in 2..Len(st) : ~StepIsSpecStep(st[j - 1].lens, st[j]), "M:history_not_a_spec_behaviour")
+  \cup If(r.end.mazes_res # "ok" \/ r.end.mazes # Expected(last), "mazes_not_the_concatenation")
+  \cup If(r.end.judge_n /\ (r.end.nm_res # "ok" \/ r.end.n_mazes # NMazes(last)), "n_mazes_wrong")
+
+FaultClauses(r) ==
+  IF r.build # "ok" THEN {"construction_raises"} ELSE
+  LET exp == Expected(r.lens)  rd == r.reads
+      partial == \E j \in 1..Len(rd) : rd[j].res = "ok" /\ rd[j].mazes # exp IN
+  If(partial /\ r.mode = "fault", "mazes_truncated_after_fault")
+  \cup If(partial /\ r.mode = "threads", "concurrent_reader_sees_partial_mazes")
+  \cup If(\E j \in 1..Len(rd) : rd[j].res = "ok" /\ (r.len_res # "ok" \/ Len(rd[j].mazes) # r.len), "mazes_len_disagrees_with_len")
+  \cup If(\E j \in 1..Len(rd) : rd[j].res \notin {"ok", "raise:InjectedFault"}, "mazes_read_raises")
+  \cup If(r.len_res # "ok" \/ r.len # CollLen(r.lens), "len_not_sum_of_members")
+  \cup If(r.mode = "fault" /\ rd[1].res # "raise:InjectedFault", "M:fault_did_not_fire")
+  \cup If(r.mode = "threads" /\ ~r.reached, "M:worker_not_held_in_build")
+
+Clauses(r) ==
+  CASE r.t = "static" -> StaticClauses(r)
+    [] r.t = "hist" -> HistClauses(r)
+    [] r.t = "fault" -> FaultClauses(r)
+    [] OTHER -> {"M:unknown_record_kind"}
 
 VARIABLES l, bad
-TInit == l = 1 /\ bad = {} /\ lens = <<>> /\ i = 0 /\ cur = <<>>
+TInit == l = 1 /\ bad = {} /\ lens = <<>> /\ i = 0 /\ cur = <<>> /\ cache = None /\ mzc = None /\ wb = 0 /\ ret = None
 TNext == /\ l <= Len(Log) /\ l' = l + 1 /\ UNCHANGED vars
          /\ bad' = bad \cup (LET c == Clauses(Log[l]) IN IF c = {} THEN {} ELSE {[id |-> Log[l].id, c |-> c]})
-TSpec == TInit /\ [][TNext]_<<l, bad, lens, i, cur>>
+TSpec == TInit /\ [][TNext]_<<l, bad, lens, i, cur, cache, mzc, wb, ret>>
 Done == (l = Len(Log) + 1) =>
           ndJsonSerialize(IOEnv.VERIF_OUT, <<[id |-> -1, c |-> {ToString(Len(Log))}]>> \o SetToSeq(bad))
 =========================================================================
